@@ -47,6 +47,10 @@ def _bases(tier: str):
         ("torch-like state dict (BINPERSID storage)", [d for l, d in __import__("sa.props.c06", fromlist=["_corpus"])._corpus("quick") if l.startswith("torch-like")][0]),
     ]
     out += hand
+    # an object too large for a frame is written between frames, and what follows it outside any frame too (Lib/pickle.py's
+    # _Framer): the opcodes after it belong to no frame, whichever FRAME precedes them
+    for p in ((4, 5) if tier == "thorough" else (4,)):
+        out.append((f"pickle.dumps(two 70000-byte members, the tail outside any frame, protocol={p})", pickle.dumps({"a": [b"z" * 70000], "b": "q" * 70000}, p)))
     if tier == "thorough":
         out += [("asm:" + l, d) for l, d in list(V._valid_programs(V.MEMO_ALPHABET, 4))[::6]]
     return out
